@@ -4,6 +4,8 @@
 package verifh
 
 import (
+	"time"
+
 	"github.com/jamespfennell/gtfs"
 	"github.com/jamespfennell/gtfs/extensions/nyctalerts"
 	vr "github.com/jamespfennell/gtfs/internal/verifrt"
@@ -15,6 +17,7 @@ func init() {
 	vr.Register("Harness_C06_realtime_order", Harness_C06_realtime_order)
 	vr.Register("Harness_C06_history_nyctalerts", Harness_C06_history_nyctalerts)
 	vr.Register("Harness_C06_history_plain", Harness_C06_history_plain)
+	vr.Register("Harness_C06_history_static", Harness_C06_history_static)
 }
 
 func hStaticFeed() []vr.File {
@@ -145,4 +148,44 @@ func Harness_C06_history_plain() {
 		return
 	}
 	vr.Assert("C06.history.plain", vr.And(vr.DeepEq(rb.Alerts, fresh.Alerts), vr.DeepEq(rb.Trips, fresh.Trips), vr.DeepEq(rb.Vehicles, fresh.Vehicles)))
+}
+
+func hDatedFeed(tz, date, service string) []vr.File {
+	return []vr.File{
+		{Name: "agency.txt", Header: []string{"agency_id", "agency_name", "agency_url", "agency_timezone"}, Rows: [][]string{{"ag", "A", "u", tz}}},
+		{Name: "routes.txt", Header: []string{"route_id", "agency_id", "route_type"}, Rows: [][]string{{"r1", "ag", "1"}}},
+		{Name: "stops.txt", Header: []string{"stop_id", "stop_name"}, Rows: [][]string{{"s1", "a"}}},
+		{Name: "calendar.txt", Header: []string{"service_id", "monday", "tuesday", "wednesday", "thursday", "friday", "saturday", "sunday", "start_date", "end_date"},
+			Rows: [][]string{{service, "1", "1", "1", "1", "1", "0", "0", date, date}}},
+		{Name: "calendar_dates.txt", Header: []string{"service_id", "date", "exception_type"}, Rows: [][]string{{service, date, "2"}}},
+		{Name: "trips.txt", Header: []string{"route_id", "service_id", "trip_id"}, Rows: [][]string{{"r1", service, "t1"}}},
+		{Name: "stop_times.txt", Header: []string{"trip_id", "arrival_time", "departure_time", "stop_id", "stop_sequence"}, Rows: [][]string{{"t1", "08:00:00", "08:00:00", "s1", "1"}}},
+	}
+}
+
+// Two static feeds parsed one after the other in one process: the second result
+// must be what the second feed alone determines (same dates, same ids,
+// another agency timezone), whatever was parsed before.
+func Harness_C06_history_static() {
+	date := vr.OneOf("date", "20240101", "20240310", "20240704")
+	svc := vr.Str("service")
+	vr.Assume(svc != "")
+	zones := []string{"America/New_York", "America/Los_Angeles", "Asia/Tokyo"}
+	za := zones[hConcretize(vr.Int("zone.a", 0, 2), 0, 2)]
+	zb := zones[hConcretize(vr.Int("zone.b", 0, 2), 0, 2)]
+	_, errA := gtfs.ParseStatic(vr.Archive(hDatedFeed(za, date, svc)), gtfs.ParseStaticOptions{})
+	rb, errB := gtfs.ParseStatic(vr.Archive(hDatedFeed(zb, date, svc)), gtfs.ParseStaticOptions{})
+	vr.Assert("C06.returns", errA == nil && errB == nil && rb != nil)
+	if rb == nil || len(rb.Services) != 1 {
+		vr.Assert("C06.history.static", false)
+		return
+	}
+	loc, err := time.LoadLocation(zb)
+	vr.Assume(err == nil)
+	want := time.Date(hAtoi(date[0:4]), time.Month(hAtoi(date[4:6])), hAtoi(date[6:8]), 0, 0, 0, 0, loc)
+	s := rb.Services[0]
+	vr.Assert("C06.history.static", vr.And(vr.DeepEq(s.StartDate, want), vr.DeepEq(s.EndDate, want), len(s.RemovedDates) == 1, s.Id == svc))
+	if len(s.RemovedDates) == 1 {
+		vr.Assert("C06.history.static", vr.DeepEq(s.RemovedDates[0], want))
+	}
 }
